@@ -68,3 +68,39 @@ func verifASCII() string {
 	}
 	return string(b)
 }
+
+// VerifC10DisabledListMulti: lists of up to three well-formed entries that may name the same
+// precompile several times (the whole address, one method, another method, in any order) or
+// another precompile. A call is refused exactly when some entry names its address or its
+// address/method pair - every entry counts, not only the last one for an address.
+func VerifC10DisabledListMulti() {
+	addr := common.HexToAddress("0x0000000000000000000000000000000000001003")
+	other := common.HexToAddress("0x0000000000000000000000000000000000001004")
+	mA, mB := []byte{0xaa, 0xbb, 0xcc, 0x01}, []byte{0xaa, 0xbb, 0xcc, 0x02}
+	forms := []string{addr.Hex(), addr.Hex() + "/" + hex.EncodeToString(mA), addr.Hex() + "/" + hex.EncodeToString(mB), other.Hex(), other.Hex() + "/" + hex.EncodeToString(mA)}
+	n := rt.Choose("entries", 4)
+	var list []string
+	var picked []int
+	for i := 0; i < n; i++ {
+		k := rt.Choose("entry.form", len(forms))
+		picked = append(picked, k)
+		list = append(list, forms[k])
+	}
+	method, mIdx := mA, 1
+	if rt.Bool("callsMethodB") {
+		method, mIdx = mB, 2
+	}
+	named := false
+	for _, k := range picked {
+		if k == 0 || k == mIdx {
+			named = true
+		}
+	}
+	err := CheckContractAddressIsDisabled(list, addr, method)
+	if err != nil {
+		rt.Cover("disabled")
+	} else {
+		rt.Cover("enabled")
+	}
+	rt.Assert((err != nil) == named, "a call is refused exactly when some list entry names its address or its address/method pair")
+}
